@@ -122,6 +122,18 @@ CHECKS = {
              'histories and re-verification after observer restart are outside the claim.',
         technique='CrossHair symbolic execution of the real ringbuffer classes + z3 regex emptiness',
         design_ref='DESIGN.md section 4 C16'),
+    'C02': dict(
+        level='model_checking',
+        text='Protocol-level bounded model checking of the real C writer: on every path of the write-path histories (see C01; every prefix of a '
+             'recorded event trace is a crash point) z3 shows that a data file comes into existence only by an exclusive create of '
+             'dir/<subdir>/tmp.<name of its window> after the final name was seen absent, is renamed tmp.X -> X exactly once and only after '
+             'its two datasets and the file were closed, is never named by a later event, and that after close no tmp file of this writer is '
+             'left. The channel properties file is shown to be staged (tmp + rename after close). z3 regex emptiness shows no reader / lister / '
+             'watcher grammar accepts a tmp. name. A real recording under strace validates the event model (creates, closes, renames).',
+        note='Trusted: z3, IR executor, stubs; HDF5 writes only to the file it was asked to create and the file is complete after H5Fclose; '
+             'rename is atomic. Content of finalized files: C01/C06.',
+        technique='symbolic execution of LLVM IR to SMT (z3) over event-trace prefixes + z3 regex emptiness + strace validation of the stubs',
+        design_ref='DESIGN.md section 4 C02'),
 }
 
 NOT_YET = 'check not built yet in this revision of /verif (planned, see DESIGN.md section 4)'
